@@ -282,10 +282,10 @@ CLAIMED = {
              "the buffer, for every geometry and every buffer length), oob_has_no_elements, bytes_roundtrip (both byte orders, every width), "
              "write_frame, set_get; copyWithin_loop_eq_memmove (the specification's directional byte-at-a-time loop of %TypedArray%.prototype.copyWithin "
              "equals the engine's single memmove of a snapshot, for every buffer, either overlap direction and every count below the limit), "
-             "copyWithin_frame (no byte outside [to, to+count) changes), copyWithin_ranges (an in-bounds view yields byte ranges inside the view), copyWithin_args_inbounds (whatever integers a script passes — negative, huge, end before start — the derived element ranges lie inside the view). The byte model (buffers fixed/resizable/detached, fixed and length-tracking views, DataView) is tied to the "
+             "copyWithin_frame (no byte outside [to, to+count) changes), copyWithin_ranges (an in-bounds view yields byte ranges inside the view), copyWithin_args_inbounds (whatever integers a script passes — negative, huge, end before start — the derived element ranges lie inside the view), fillBytes_frame / fillBytes_reads (%TypedArray%.prototype.fill keeps the length, changes no byte outside the elements [k, final) and every element of the range reads back as the stored value). The byte model (buffers fixed/resizable/detached, fixed and length-tracking views, DataView) is tied to the "
              "engine by a correspondence run over operation histories rendered to JavaScript.",
         technique="Lean 4 proofs (omega, induction) over a byte-level model + differential correspondence run of JS histories against the engine",
-        note="Not modelled: Float32/Float16 rounding, fill/subarray/slice/sort, copyWithin with non-integer arguments, SharedArrayBuffer/Atomics; raw memory code in array_buffer/utils.rs is modelled by its logical effect.",
+        note="Not modelled: Float32/Float16 rounding, subarray/slice/sort, copyWithin with non-integer arguments, SharedArrayBuffer/Atomics; raw memory code in array_buffer/utils.rs is modelled by its logical effect.",
     ),
     "C09": dict(
         level="proof",
